@@ -189,12 +189,12 @@ End Cor.
 Definition file_hyp (ops : list op) : Prop :=
   ops_wf ops = true /\ zero_free ops = true /\ reopen_safe ops = true.
 Definition mem_hyp (ops : list op) : Prop :=
-  forallb op_bounded ops = true /\ zero_free ops = true /\ mem_ctl_ok ops = true.
+  forallb op_bounded ops = true /\ zero_free ops = true.
 
 Lemma file_refines_hyp : forall ops, file_hyp ops -> file_outputs ops = Some (spec_outputs ops).
 Proof. intros ops [H1 [H2 H3]]. apply c26_file_refines_lemma; auto. Qed.
 Lemma mem_refines_hyp : forall ops, mem_hyp ops -> mem_outputs ops = Some (spec_outputs ops).
-Proof. intros ops [H1 [H2 H3]]. apply c26_mem_partial_lemma; auto. Qed.
+Proof. intros ops [H1 H2]. apply c26_mem_refines_lemma; auto. Qed.
 
 Definition c26_range_file_lemma := cor_range file_outputs file_hyp file_refines_hyp.
 Definition c26_range_mem_lemma := cor_range mem_outputs mem_hyp mem_refines_hyp.
@@ -219,18 +219,19 @@ Proof. repeat split; vm_compute; reflexivity. Qed.
 (* a search from 0 finds the control record's key 0 and reports "nothing", on both persisters *)
 Definition zero_ops : list op := [OCtlPut 1 1; OPut 3 [65]; ONearest 0 5; ORange 0 0 0].
 Lemma c26_zero_request_refuted_lemma :
-  ops_wf zero_ops = true /\ reopen_safe zero_ops = true /\ mem_ctl_ok zero_ops = true /\
+  ops_wf zero_ops = true /\ reopen_safe zero_ops = true /\
   zero_free zero_ops = false /\
   file_outputs zero_ops = Some [RBool true; RBool true; RNum 0; RRange 0 [completion]] /\
   mem_outputs zero_ops = Some [RBool true; RBool true; RNum 0; RRange 0 [completion]] /\
   spec_outputs zero_ops = [RBool true; RBool true; RNum 3; RRange 1 [(3, [65], false); completion]].
 Proof. repeat split; vm_compute; reflexivity. Qed.
 
-(* non-vacuity: a sequence meeting all hypotheses of c26_file_refines and of c26_mem_partial,
-   with accepted and refused puts, a reopen, a search, an aborted range *)
+(* non-vacuity: a sequence meeting all hypotheses of c26_file_refines and of c26_mem_refines,
+   with accepted and refused puts, a reopen, a search, an aborted range, control record replaced *)
 Definition nv_ops : list op :=
   [OCtlPut 4 9; OPut 2 [1; 2]; OPut 5 []; OPut 2 [3]; OPut 0 [4]; OPut 9 [5; 6; 7]; OReopen;
-   OGet 2; OGet 7; OLast; ONearest 3 9; ORange 1 0 2; ORange 2 9 0; OPut 7 [8]; ORange 6 0 0].
+   OGet 2; OGet 7; OLast; ONearest 3 9; ORange 1 0 2; ORange 2 9 0; OPut 7 [8]; ORange 6 0 0;
+   OCtlGet; OCtlPut 6 1; OCtlGet].
 Lemma c26_nonvacuous_lemma :
   file_hyp nv_ops /\ mem_hyp nv_ops /\
   spec_outputs nv_ops =
@@ -238,7 +239,8 @@ Lemma c26_nonvacuous_lemma :
      RBytes (Some [1; 2]); RBytes None; RNum 9; RNum 5;
      RRange 2 [(2, [1; 2], false); (5, [], false); completion];
      RRange 3 [(2, [1; 2], false); (5, [], false); (9, [5; 6; 7], false); completion];
-     RBool true; RRange 2 [(7, [8], false); (9, [5; 6; 7], false); completion]].
+     RBool true; RRange 2 [(7, [8], false); (9, [5; 6; 7], false); completion];
+     RCtl (Some (4, 9)); RBool true; RCtl (Some (6, 1))].
 Proof. repeat split; vm_compute; reflexivity. Qed.
 
 (* a record one byte longer than MaxMsgLen is accepted by put and overruns get's buffer *)
